@@ -144,6 +144,31 @@ impl Counts {
 
     /// Returns true if we can issue another local reset due to protocol error.
     pub fn can_inc_num_local_error_resets(&self) -> bool {
+        #[cfg(feature = "verif-hooks")]
+        crate::verif::ev("counts.can_inc_local_error", || {
+            vec![
+                (if self.max_send_streams > i64::MAX as usize {
+                    -1
+                } else {
+                    self.max_send_streams as i64
+                }),
+                self.num_send_streams as i64,
+                (if self.max_recv_streams > i64::MAX as usize {
+                    -1
+                } else {
+                    self.max_recv_streams as i64
+                }),
+                self.num_recv_streams as i64,
+                self.max_local_reset_streams as i64,
+                self.num_local_reset_streams as i64,
+                self.max_remote_reset_streams as i64,
+                self.num_remote_reset_streams as i64,
+                self.max_local_error_reset_streams
+                    .map(|v| v as i64)
+                    .unwrap_or(-1),
+                self.num_local_error_reset_streams as i64,
+            ]
+        });
         if let Some(max) = self.max_local_error_reset_streams {
             max > self.num_local_error_reset_streams
         } else {
@@ -152,6 +177,31 @@ impl Counts {
     }
 
     pub fn inc_num_local_error_resets(&mut self) {
+        #[cfg(feature = "verif-hooks")]
+        crate::verif::ev("counts.inc_local_error", || {
+            vec![
+                (if self.max_send_streams > i64::MAX as usize {
+                    -1
+                } else {
+                    self.max_send_streams as i64
+                }),
+                self.num_send_streams as i64,
+                (if self.max_recv_streams > i64::MAX as usize {
+                    -1
+                } else {
+                    self.max_recv_streams as i64
+                }),
+                self.num_recv_streams as i64,
+                self.max_local_reset_streams as i64,
+                self.num_local_reset_streams as i64,
+                self.max_remote_reset_streams as i64,
+                self.num_remote_reset_streams as i64,
+                self.max_local_error_reset_streams
+                    .map(|v| v as i64)
+                    .unwrap_or(-1),
+                self.num_local_error_reset_streams as i64,
+            ]
+        });
         assert!(self.can_inc_num_local_error_resets());
 
         // Increment the number of remote initiated streams
@@ -164,6 +214,31 @@ impl Counts {
 
     /// Returns true if the receive stream concurrency can be incremented
     pub fn can_inc_num_recv_streams(&self) -> bool {
+        #[cfg(feature = "verif-hooks")]
+        crate::verif::ev("counts.can_inc_recv", || {
+            vec![
+                (if self.max_send_streams > i64::MAX as usize {
+                    -1
+                } else {
+                    self.max_send_streams as i64
+                }),
+                self.num_send_streams as i64,
+                (if self.max_recv_streams > i64::MAX as usize {
+                    -1
+                } else {
+                    self.max_recv_streams as i64
+                }),
+                self.num_recv_streams as i64,
+                self.max_local_reset_streams as i64,
+                self.num_local_reset_streams as i64,
+                self.max_remote_reset_streams as i64,
+                self.num_remote_reset_streams as i64,
+                self.max_local_error_reset_streams
+                    .map(|v| v as i64)
+                    .unwrap_or(-1),
+                self.num_local_error_reset_streams as i64,
+            ]
+        });
         self.max_recv_streams > self.num_recv_streams
     }
 
@@ -173,6 +248,34 @@ impl Counts {
     ///
     /// Panics on failure as this should have been validated before hand.
     pub fn inc_num_recv_streams(&mut self, stream: &mut store::Ptr) {
+        #[cfg(feature = "verif-hooks")]
+        crate::verif::ev("counts.inc_recv", || {
+            vec![
+                stream.verif_serial,
+                u32::from(stream.id) as i64,
+                stream.is_counted as i64,
+                (if self.max_send_streams > i64::MAX as usize {
+                    -1
+                } else {
+                    self.max_send_streams as i64
+                }),
+                self.num_send_streams as i64,
+                (if self.max_recv_streams > i64::MAX as usize {
+                    -1
+                } else {
+                    self.max_recv_streams as i64
+                }),
+                self.num_recv_streams as i64,
+                self.max_local_reset_streams as i64,
+                self.num_local_reset_streams as i64,
+                self.max_remote_reset_streams as i64,
+                self.num_remote_reset_streams as i64,
+                self.max_local_error_reset_streams
+                    .map(|v| v as i64)
+                    .unwrap_or(-1),
+                self.num_local_error_reset_streams as i64,
+            ]
+        });
         assert!(self.can_inc_num_recv_streams());
         assert!(!stream.is_counted);
 
@@ -183,6 +286,31 @@ impl Counts {
 
     /// Returns true if the send stream concurrency can be incremented
     pub fn can_inc_num_send_streams(&self) -> bool {
+        #[cfg(feature = "verif-hooks")]
+        crate::verif::ev("counts.can_inc_send", || {
+            vec![
+                (if self.max_send_streams > i64::MAX as usize {
+                    -1
+                } else {
+                    self.max_send_streams as i64
+                }),
+                self.num_send_streams as i64,
+                (if self.max_recv_streams > i64::MAX as usize {
+                    -1
+                } else {
+                    self.max_recv_streams as i64
+                }),
+                self.num_recv_streams as i64,
+                self.max_local_reset_streams as i64,
+                self.num_local_reset_streams as i64,
+                self.max_remote_reset_streams as i64,
+                self.num_remote_reset_streams as i64,
+                self.max_local_error_reset_streams
+                    .map(|v| v as i64)
+                    .unwrap_or(-1),
+                self.num_local_error_reset_streams as i64,
+            ]
+        });
         self.max_send_streams > self.num_send_streams
     }
 
@@ -192,6 +320,34 @@ impl Counts {
     ///
     /// Panics on failure as this should have been validated before hand.
     pub fn inc_num_send_streams(&mut self, stream: &mut store::Ptr) {
+        #[cfg(feature = "verif-hooks")]
+        crate::verif::ev("counts.inc_send", || {
+            vec![
+                stream.verif_serial,
+                u32::from(stream.id) as i64,
+                stream.is_counted as i64,
+                (if self.max_send_streams > i64::MAX as usize {
+                    -1
+                } else {
+                    self.max_send_streams as i64
+                }),
+                self.num_send_streams as i64,
+                (if self.max_recv_streams > i64::MAX as usize {
+                    -1
+                } else {
+                    self.max_recv_streams as i64
+                }),
+                self.num_recv_streams as i64,
+                self.max_local_reset_streams as i64,
+                self.num_local_reset_streams as i64,
+                self.max_remote_reset_streams as i64,
+                self.num_remote_reset_streams as i64,
+                self.max_local_error_reset_streams
+                    .map(|v| v as i64)
+                    .unwrap_or(-1),
+                self.num_local_error_reset_streams as i64,
+            ]
+        });
         assert!(self.can_inc_num_send_streams());
         assert!(!stream.is_counted);
 
@@ -202,6 +358,31 @@ impl Counts {
 
     /// Returns true if the number of pending reset streams can be incremented.
     pub fn can_inc_num_reset_streams(&self) -> bool {
+        #[cfg(feature = "verif-hooks")]
+        crate::verif::ev("counts.can_inc_reset", || {
+            vec![
+                (if self.max_send_streams > i64::MAX as usize {
+                    -1
+                } else {
+                    self.max_send_streams as i64
+                }),
+                self.num_send_streams as i64,
+                (if self.max_recv_streams > i64::MAX as usize {
+                    -1
+                } else {
+                    self.max_recv_streams as i64
+                }),
+                self.num_recv_streams as i64,
+                self.max_local_reset_streams as i64,
+                self.num_local_reset_streams as i64,
+                self.max_remote_reset_streams as i64,
+                self.num_remote_reset_streams as i64,
+                self.max_local_error_reset_streams
+                    .map(|v| v as i64)
+                    .unwrap_or(-1),
+                self.num_local_error_reset_streams as i64,
+            ]
+        });
         self.max_local_reset_streams > self.num_local_reset_streams
     }
 
@@ -211,6 +392,31 @@ impl Counts {
     ///
     /// Panics on failure as this should have been validated before hand.
     pub fn inc_num_reset_streams(&mut self) {
+        #[cfg(feature = "verif-hooks")]
+        crate::verif::ev("counts.inc_reset", || {
+            vec![
+                (if self.max_send_streams > i64::MAX as usize {
+                    -1
+                } else {
+                    self.max_send_streams as i64
+                }),
+                self.num_send_streams as i64,
+                (if self.max_recv_streams > i64::MAX as usize {
+                    -1
+                } else {
+                    self.max_recv_streams as i64
+                }),
+                self.num_recv_streams as i64,
+                self.max_local_reset_streams as i64,
+                self.num_local_reset_streams as i64,
+                self.max_remote_reset_streams as i64,
+                self.num_remote_reset_streams as i64,
+                self.max_local_error_reset_streams
+                    .map(|v| v as i64)
+                    .unwrap_or(-1),
+                self.num_local_error_reset_streams as i64,
+            ]
+        });
         assert!(self.can_inc_num_reset_streams());
 
         self.num_local_reset_streams += 1;
@@ -223,6 +429,31 @@ impl Counts {
     /// Returns true if the number of pending REMOTE reset streams can be
     /// incremented.
     pub(crate) fn can_inc_num_remote_reset_streams(&self) -> bool {
+        #[cfg(feature = "verif-hooks")]
+        crate::verif::ev("counts.can_inc_remote_reset", || {
+            vec![
+                (if self.max_send_streams > i64::MAX as usize {
+                    -1
+                } else {
+                    self.max_send_streams as i64
+                }),
+                self.num_send_streams as i64,
+                (if self.max_recv_streams > i64::MAX as usize {
+                    -1
+                } else {
+                    self.max_recv_streams as i64
+                }),
+                self.num_recv_streams as i64,
+                self.max_local_reset_streams as i64,
+                self.num_local_reset_streams as i64,
+                self.max_remote_reset_streams as i64,
+                self.num_remote_reset_streams as i64,
+                self.max_local_error_reset_streams
+                    .map(|v| v as i64)
+                    .unwrap_or(-1),
+                self.num_local_error_reset_streams as i64,
+            ]
+        });
         self.max_remote_reset_streams > self.num_remote_reset_streams
     }
 
@@ -232,18 +463,98 @@ impl Counts {
     ///
     /// Panics on failure as this should have been validated before hand.
     pub(crate) fn inc_num_remote_reset_streams(&mut self) {
+        #[cfg(feature = "verif-hooks")]
+        crate::verif::ev("counts.inc_remote_reset", || {
+            vec![
+                (if self.max_send_streams > i64::MAX as usize {
+                    -1
+                } else {
+                    self.max_send_streams as i64
+                }),
+                self.num_send_streams as i64,
+                (if self.max_recv_streams > i64::MAX as usize {
+                    -1
+                } else {
+                    self.max_recv_streams as i64
+                }),
+                self.num_recv_streams as i64,
+                self.max_local_reset_streams as i64,
+                self.num_local_reset_streams as i64,
+                self.max_remote_reset_streams as i64,
+                self.num_remote_reset_streams as i64,
+                self.max_local_error_reset_streams
+                    .map(|v| v as i64)
+                    .unwrap_or(-1),
+                self.num_local_error_reset_streams as i64,
+            ]
+        });
         assert!(self.can_inc_num_remote_reset_streams());
 
         self.num_remote_reset_streams += 1;
     }
 
     pub(crate) fn dec_num_remote_reset_streams(&mut self) {
+        #[cfg(feature = "verif-hooks")]
+        crate::verif::ev("counts.dec_remote_reset", || {
+            vec![
+                (if self.max_send_streams > i64::MAX as usize {
+                    -1
+                } else {
+                    self.max_send_streams as i64
+                }),
+                self.num_send_streams as i64,
+                (if self.max_recv_streams > i64::MAX as usize {
+                    -1
+                } else {
+                    self.max_recv_streams as i64
+                }),
+                self.num_recv_streams as i64,
+                self.max_local_reset_streams as i64,
+                self.num_local_reset_streams as i64,
+                self.max_remote_reset_streams as i64,
+                self.num_remote_reset_streams as i64,
+                self.max_local_error_reset_streams
+                    .map(|v| v as i64)
+                    .unwrap_or(-1),
+                self.num_local_error_reset_streams as i64,
+            ]
+        });
         assert!(self.num_remote_reset_streams > 0);
 
         self.num_remote_reset_streams -= 1;
     }
 
     pub fn apply_remote_settings(&mut self, settings: &frame::Settings, is_initial: bool) {
+        #[cfg(feature = "verif-hooks")]
+        crate::verif::ev("counts.apply_remote_settings", || {
+            vec![
+                settings
+                    .max_concurrent_streams()
+                    .map(|v| v as i64)
+                    .unwrap_or(-1),
+                is_initial as i64,
+                (if self.max_send_streams > i64::MAX as usize {
+                    -1
+                } else {
+                    self.max_send_streams as i64
+                }),
+                self.num_send_streams as i64,
+                (if self.max_recv_streams > i64::MAX as usize {
+                    -1
+                } else {
+                    self.max_recv_streams as i64
+                }),
+                self.num_recv_streams as i64,
+                self.max_local_reset_streams as i64,
+                self.num_local_reset_streams as i64,
+                self.max_remote_reset_streams as i64,
+                self.num_remote_reset_streams as i64,
+                self.max_local_error_reset_streams
+                    .map(|v| v as i64)
+                    .unwrap_or(-1),
+                self.num_local_error_reset_streams as i64,
+            ]
+        });
         match settings.max_concurrent_streams() {
             Some(val) => self.max_send_streams = val as usize,
             None if is_initial => self.max_send_streams = usize::MAX,
@@ -274,6 +585,41 @@ impl Counts {
 
     // TODO: move this to macro?
     pub fn transition_after(&mut self, mut stream: store::Ptr, is_reset_counted: bool) {
+        #[cfg(feature = "verif-hooks")]
+        let _verif = crate::verif::enter("counts.transition_after", || {
+            vec![
+                stream.verif_serial,
+                u32::from(stream.id) as i64,
+                stream.is_counted as i64,
+                stream.is_closed() as i64,
+                stream.is_pending_reset_expiration() as i64,
+                is_reset_counted as i64,
+                stream.state.is_scheduled_reset() as i64,
+                stream.is_released() as i64,
+                self.peer.is_local_init(stream.id) as i64,
+                stream.ref_count as i64,
+                (if self.max_send_streams > i64::MAX as usize {
+                    -1
+                } else {
+                    self.max_send_streams as i64
+                }),
+                self.num_send_streams as i64,
+                (if self.max_recv_streams > i64::MAX as usize {
+                    -1
+                } else {
+                    self.max_recv_streams as i64
+                }),
+                self.num_recv_streams as i64,
+                self.max_local_reset_streams as i64,
+                self.num_local_reset_streams as i64,
+                self.max_remote_reset_streams as i64,
+                self.num_remote_reset_streams as i64,
+                self.max_local_error_reset_streams
+                    .map(|v| v as i64)
+                    .unwrap_or(-1),
+                self.num_local_error_reset_streams as i64,
+            ]
+        });
         tracing::trace!(
             "transition_after; stream={:?}; state={:?}; is_closed={:?}; \
              pending_send_empty={:?}; buffered_send_data={}; \
